@@ -291,7 +291,9 @@ fn scan(rec: &mut Rec, hay: &[u8], needles: &[(&str, Vec<u8>)], where_: &str, re
       continue;
     }
     rec.ev("needle_scans");
-    if let Some(off) = find_sub(hay, n) {
+    // long uniform needles (measurement, aux, messages): any 12-byte window counts
+    let hit = if n.len() > 32 { find_any_window(hay, n, 12).map(|(_, o)| o) } else { find_sub(hay, n) };
+    if let Some(off) = hit {
       rec.violation(
         &format!("cleartext:{}:{}", where_, name),
         format!("{} ({} bytes) occurs in the clear at byte offset {} of an encoded {}", name, n.len(), off, where_),
@@ -306,7 +308,7 @@ fn scanner(rec: &mut Rec, ctx: &Ctx, idx: u64, rng: &mut ChaCha20Rng) {
   let ml = *pick(rng, &[8usize, 16, 24, 32, 40, 170, 400]);
   let m = rand_bytes(rng, ml);
   let e = rand_bytes_in(rng, 0..16);
-  let al = *pick(rng, &[8usize, 16, 33, 200]);
+  let al = *pick(rng, &[8usize, 16, 33, 200, 400]);
   rec.evals += 1;
   rec.case(&("scan", t, ml, al));
   let s = match make(rng, &m, &e, t, t as usize + 1, al) {
@@ -500,6 +502,54 @@ fn shape(rec: &mut Rec, _ctx: &Ctx, idx: u64, rng: &mut ChaCha20Rng, global: &Mu
   }
 }
 
+/// thresholds beyond every 8-bit boundary: t-1 (and 255, 256) honest distinct
+/// shares must not recover, and must not interpolate to the sharing key
+fn large_threshold(rec: &mut Rec, ctx: &Ctx, idx: u64, rng: &mut ChaCha20Rng) {
+  let ts: &[u32] = if ctx.thorough() { &[256, 257, 300, 511, 512, 513, 1000, 1025] } else { &[256, 257, 300, 513] };
+  let t = ts[(idx as usize) % ts.len()];
+  let m = rand_bytes_in(rng, 8..40);
+  let e = rand_bytes_in(rng, 0..6);
+  rec.evals += 1;
+  rec.case(&("large-t", t, idx));
+  let s = match make(rng, &m, &e, t, t as usize, 9) {
+    Ok(s) => s,
+    Err(er) => {
+      rec.violation("generate-failed", er, json!({"t": t}));
+      return;
+    }
+  };
+  rec.control("t_honest_shares_recover", s.seed.is_some());
+  if s.seed.is_none() {
+    return;
+  }
+  let sh = [&s];
+  let tu = t as usize;
+  for k in [tu - 1, 255, 256, tu / 2] {
+    if k >= tu || k == 0 {
+      continue;
+    }
+    let coll: Vec<Item> = (0..k).map(|i| (0usize, i, None)).collect();
+    run_collection(rec, &sh, &coll, "large-threshold:k-distinct-honest", idx);
+  }
+  let pts: Vec<(BigUint, BigUint)> = s.parsed.iter().map(|p| (p.s.x_int(), p.s.y_int(0))).collect();
+  if let Some(k_true) = bf::lagrange_at_zero(&pts[..tu]) {
+    for k in [tu - 1, 255, 256] {
+      if k >= tu {
+        continue;
+      }
+      rec.ev("attacker_interpolation");
+      if bf::lagrange_at_zero(&pts[..k]) == Some(k_true.clone()) {
+        rec.violation(
+          "attacker-interpolation-succeeds",
+          format!("Lagrange interpolation over {} < t={} shares yields the sharing key: the polynomial has degree < t-1", k, t),
+          json!({"case": idx, "t": t, "points_used": k}),
+        );
+        break;
+      }
+    }
+  }
+}
+
 pub fn run(ctx: &Ctx) -> Rec {
   let mut rec = par_run(ctx, "attacks", ctx.n(1200, 30_000), |rec, i, rng| attacks(rec, ctx, i, rng));
   rec.merge(par_run(ctx, "scanner", ctx.n(2000, 60_000), |rec, i, rng| scanner(rec, ctx, i, rng)));
@@ -507,6 +557,7 @@ pub fn run(ctx: &Ctx) -> Rec {
   // the shape stream includes deliberate neighbours: every 4 consecutive cases
   // share a measurement and differ in epoch or threshold only
   rec.merge(par_run(ctx, "shape", ctx.n(2400, 100_000), |rec, i, rng| shape(rec, ctx, i, rng, &global)));
+  rec.merge(par_run(ctx, "large-threshold", ctx.n(4, 48), |rec, i, rng| large_threshold(rec, ctx, i, rng)));
   rec.note("global_coefficient_set", json!(global.lock().unwrap().len()));
   rec
 }
